@@ -52,13 +52,15 @@ BOUNDS = {
     "quick": {
         "k": [1, 2, 3], "samples": [1, 2, 3], "unobserved_plates_per_sample": [0, 4],
         "pre_observed_plates_per_sample": [0, 1], "layouts": ["interleaved"],
-        "multi_batch_variant": {"k": [1, 2, 3], "samples": [1, 2, 3], "unobserved_plates_per_sample": [0, 3]},
+        "multi_batch_variant": {"k": [1, 2, 3], "samples": [1, 2, 3], "unobserved_plates_per_sample": [0, 3],
+                                "max_reference_states_per_configuration": 2500},
         "depth": "fixpoint (no depth bound)", "max_states_per_configuration": 200000,
     },
     "thorough": {
         "k": [1, 2, 3, 4], "samples": [1, 2, 3], "unobserved_plates_per_sample": [0, 5],
         "pre_observed_plates_per_sample": [0, 1], "layouts": ["interleaved", "blocked"],
-        "multi_batch_variant": {"k": [1, 2, 3, 4], "samples": [1, 2, 3], "unobserved_plates_per_sample": [0, 4]},
+        "multi_batch_variant": {"k": [1, 2, 3, 4], "samples": [1, 2, 3], "unobserved_plates_per_sample": [0, 4],
+                                "max_reference_states_per_configuration": 30000},
         "depth": "fixpoint (no depth bound)", "max_states_per_configuration": 200000,
     },
 }
@@ -120,17 +122,35 @@ def _tuples(opts, max_samples):
     return out
 
 
+def _batch_states(us, k):
+    """Number of batches reachable in one configuration (reference count, used for packing)."""
+    whole = [1 + math.comb(u, k) for u in us]
+    total = math.prod(whole)
+    for i, u in enumerate(us):
+        if u >= k:
+            part = sum(math.comb(u, j) for j in range(1, k))
+            total += part * math.prod(w for j, w in enumerate(whole) if j != i)
+    return total
+
+
 def _est(cfg):
+    """Expected number of BFS states of a configuration."""
     k = cfg["k"]
     us = [u for u, _ in cfg["samples"]]
-    complete = 1
-    for u in us:
-        complete *= 1 + math.comb(u, k)
-    prog = 1 + sum(math.comb(u, j) for u in us for j in range(1, k))
-    est = complete * prog
-    if cfg["variant"] == "retrospective":
-        est *= complete
-    return 8 + est
+    if cfg["variant"] != "retrospective":
+        return _batch_states(us, k)
+    total = 0
+
+    def rec(i, ways, rest):
+        nonlocal total
+        if i == len(us):
+            total += ways * _batch_states(rest, k)
+            return
+        for r in range(0, us[i] + 1, k):
+            rec(i + 1, ways * math.comb(us[i], r), rest + [us[i] - r])
+
+    rec(0, 1, [])
+    return total
 
 
 def configurations(tier):
@@ -144,7 +164,9 @@ def configurations(tier):
     mb = b["multi_batch_variant"]
     for samples in _tuples(_sample_opts(mb["unobserved_plates_per_sample"][1], 0), mb["samples"][-1]):
         for k in mb["k"]:
-            out.append({"variant": "retrospective", "k": k, "samples": samples, "layout": "interleaved"})
+            c = {"variant": "retrospective", "k": k, "samples": samples, "layout": "interleaved"}
+            if _est(c) <= mb["max_reference_states_per_configuration"]:
+                out.append(c)
     return out
 
 
@@ -168,11 +190,11 @@ def multi_sample_cases(tier):
 def plan(tier, seed):
     cfgs = configurations(tier)
     cfgs.sort(key=lambda c: -_est(c))
-    budget = 4000 if tier == "quick" else 15000
+    budget = 2500 if tier == "quick" else 8000  # BFS states per work item (about 2 ms each)
     items, cur, acc = [], [], 0
     for c in cfgs:
         cur.append(c)
-        acc += _est(c)
+        acc += 3 + _est(c)
         if acc >= budget:
             items.append({"kind": "bfs", "configs": cur})
             cur, acc = [], 0
@@ -438,7 +460,8 @@ def run_config(cfg, col):
     col.transitions += res["transitions"]
     col.count("configurations")
     col.count("configurations: " + cfg["variant"])
-    col.counters["deepest batch history"] = max(col.counters.get("deepest batch history", 0), res["max_depth"])
+    if res["states"] != _est(cfg):  # informational, never a verdict
+        col.count("configurations whose reachable-state count differs from the closed-form count")
     if res["cap_hit"]:
         col.cap(f"max_states={MAX_STATES} in one configuration")
 
@@ -449,9 +472,13 @@ def run_multi(case, col):
     info = _Info(make_screen(build_rows(case)))
     m = case["mplate"]
     ordinary = sorted(n for n in info.unobserved if n != m["name"])
-    # an ordinary batch prefix the policy itself could have produced: plates of the last sample
-    last = sorted(n for n in ordinary if info.samples_of[n] == info.samples_of[ordinary[-1]]) if ordinary else []
-    batch = last[: min(int(case["n_batch"]), len(last))]
+    # an ordinary batch prefix the policy itself could have produced: <= k plates of the
+    # sample with the most unobserved plates, provided it has at least k of them
+    by_sample = {}
+    for n in ordinary:
+        by_sample.setdefault(info.samples_of[n], []).append(n)
+    best = max(by_sample.values(), key=lambda v: (len(v), v), default=[])
+    batch = best[: min(int(case["n_batch"]), k)] if len(best) >= k else []
     if m["where"] == "batch":
         batch = batch + [m["name"]]
     remaining = sorted(info.unobserved - set(batch))
@@ -496,20 +523,11 @@ def replay(case, col):
     ctx = Ctx(case["config"])
     state = ((), ())
     ctx.hist[state] = []
-    path = [state]
     for label in case["history"]:
-        batch, revealed = state
-        if label == "close":
-            new_rev = tuple(sorted(set(revealed) | set(batch)))
-            ctx.info(new_rev, parent=revealed, newly=list(batch), col=col)
-            nxt = ((), new_rev)
-        else:
-            nxt = (tuple(sorted(batch + (label,))), revealed)
-        ctx.hist[nxt] = ctx.hist[state] + [label]
-        state = nxt
-        path.append(state)
-    for st in path[:-1]:
-        probe = type(col)(col.prop)
-        expand(ctx, st, probe)  # earlier states: executed for real, judged only at the end state
+        probe = type(col)(col.prop)  # earlier states: executed for real, judged only at the end state
+        nxt = dict(expand(ctx, state, probe)).get(label)
         col.evaluations += probe.evaluations
+        if nxt is None:
+            return  # the code under test no longer makes this transition: the recorded state is unreachable
+        state = nxt
     expand(ctx, state, col)
